@@ -98,6 +98,9 @@ func checkC05(c *Ctx) {
 		checkPollReturnsWhatItReceives(c, p, "C05-R15")
 		checkEventTimeFromConstructor(c, p, "C05-R17")
 		checkDrainKeepsTypeAhead(c, p, "C05-R18")
+		c.Rule("C05-R20", "an event in the queue is delivered: only the consumer side (PollEvent, ChannelEvents, HasPendingEvent of baseScreen) takes events out of a queue; no producer makes room by receiving")
+		c.Expect("C05-R20", 1)
+		checkOnlyConsumersReceive(c, p, "C05-R20")
 		c.asRule("C02-R9", "C05-R16", func() {
 			for _, pi := range inputParsers(p) {
 				c02Consumption(c, p, pi)
